@@ -1,9 +1,40 @@
 import PyamgV.Driver.Util
-/-! Driver ops of extension task E30 (op names prefixed `ext_`). -/
+import PyamgV.Model.ExtGlue
+/-! Driver ops of extension task E30 (op names prefixed `ext_`): the SciPy glue models of
+Model/ExtGlue.lean and the composed API paths of `pyamg/classical/interpolate.py`. -/
 namespace PyamgV.Drv.ExtE30
-open PyamgV PyamgV.Drv
+open PyamgV PyamgV.Drv PyamgV.N
+
+def mk (n ap aj ax : String) : N.Csr := ⟨nat n, parseNats ap, parseNats aj, parseRats ax⟩
+def showCsr (A : N.Csr) : String := showNats A.ap ++ ";" ++ showNats A.aj ++ ";" ++ showRats A.ax
 
 def handle : List String → Option String
+  | ["ext_glue_elim", n, ap, aj, ax] => some <| showCsr (Glue.eliminateZeros (mk n ap aj ax))
+  | ["ext_glue_ones", n, ap, aj, ax] => some <| showCsr (Glue.setOnes (mk n ap aj ax))
+  | ["ext_glue_sort", n, ap, aj, ax] => some <| showCsr (Glue.sortIndices (mk n ap aj ax))
+  | ["ext_glue_sumdup", n, ap, aj, ax] => some <| showCsr (Glue.sumDuplicates (mk n ap aj ax))
+  | ["ext_glue_canon", n, ap, aj] => some <| if Glue.isCanonical (mk n ap aj "-") then "1" else "0"
+  | ["ext_glue_mul", n, cp, cj, cx, ap, aj, ax] =>
+    some <| showCsr (Glue.multiply (mk n cp cj cx) (mk n ap aj ax))
+  | ["ext_glue_stail", tiny, n, sp, sj, sx] =>
+    some <| showCsr (Glue.strengthTail (parseRat tiny) (nat n) ⟨parseNats sp, parseNats sj, parseRats sx⟩)
+  | ["ext_c11_api_strength", md, n, ap, aj, ax, cp, cj, cx, split] =>
+    some <| showCsr (Glue.apiStrength (md == "1") (mk n ap aj ax) (mk n cp cj cx) (parseInts split))
+  | ["ext_c11_api_classical", eps, md, n, ap, aj, ax, cp, cj, cx, split] =>
+    let (pp, pj, px) := Glue.apiClassical (parseRat eps) (md == "1") (mk n ap aj ax) (mk n cp cj cx) (parseInts split)
+    some <| showNats pp ++ ";" ++ showInts pj ++ ";" ++ showORats px
+  | ["ext_c11_api_direct", n, ap, aj, ax, cp, cj, cx, split] =>
+    let (pp, pj, px) := Glue.apiDirect (mk n ap aj ax) (mk n cp cj cx) (parseInts split)
+    some <| showNats pp ++ ";" ++ showNats pj ++ ";" ++ showORats px
+  | ["ext_c11_api_soc", tiny, th, norm, n, ap, aj, ax] =>
+    some <| showCsr (Glue.apiSoc (parseRat tiny) (parseRat th) (norm == "abs") (mk n ap aj ax))
+  | ["ext_c11_api_classical_theta", eps, md, tiny, th, norm, n, ap, aj, ax, split] =>
+    let (pp, pj, px) := Glue.apiClassicalTheta (parseRat eps) (md == "1") (parseRat tiny) (parseRat th) (norm == "abs")
+      (mk n ap aj ax) (parseInts split)
+    some <| showNats pp ++ ";" ++ showInts pj ++ ";" ++ showORats px
+  | ["ext_c11_api_direct_theta", tiny, th, norm, n, ap, aj, ax, split] =>
+    let (pp, pj, px) := Glue.apiDirectTheta (parseRat tiny) (parseRat th) (norm == "abs") (mk n ap aj ax) (parseInts split)
+    some <| showNats pp ++ ";" ++ showNats pj ++ ";" ++ showORats px
   | _ => none
 
 end PyamgV.Drv.ExtE30
